@@ -355,6 +355,9 @@ def check(case, acc, tmp):
     src = observe_source(t)
     before = O.content(t)
     gen = src['generated_by'] if src['generated_by'] is not None else GEN_DEFAULT
+    if src['generated_by'] is not None and case.get('header', 0) != 1:
+        # the string passed to the writer is the one that counts, not the one the table was built with
+        gen = gen + ' (as passed to the writer)'
     exp_id = src['table_id'] if src['table_id'] is not None else PLACEHOLDER
     if is_nontrivial(case, src):
         acc.nontrivial.add(h64(json.dumps(case, sort_keys=True)))
@@ -406,6 +409,7 @@ def second_generation(r, src, gen, exp_id, bad, acc, date):
     fh = h5py.File('c01-gen2-%d-%d.h5' % (os.getpid(), id(r)), 'w', driver='core', backing_store=False)
     try:
         try:
+            gen = gen + ' #2'        # the loaded table carries the first string; the writer is given another
             r.to_hdf5(fh, gen, creation_date=date)
         except Exception as e:
             bad('second-generation:writer-raised:' + type(e).__name__, 'a table read from HDF5 cannot be written '
